@@ -23,7 +23,8 @@ MsInit(cfg) == [cfg |-> cfg,
                 rr |-> FALSE,         \* C19: a ResendRequest has been seen on this connection
                 logged |-> FALSE,     \* logon exchange completed
                 lastSent |-> -1, lastRecv |-> -1, trPending |-> FALSE, trAt |-> -1,   \* C22
-                psent |-> {}, deliv |-> {}, taint |-> {}]                              \* C20 / C21
+                psent |-> {}, deliv |-> {}, taint |-> {},                              \* C20 / C21
+                sentBy |-> [a |-> {}, b |-> {}], delivAt |-> [a |-> {}, b |-> {}], maxFirst |-> [a |-> 0, b |-> 0]]
 
 Prop(m) == m.cfg.prop
 
@@ -276,6 +277,39 @@ C20Step(m, e) ==
                   sig |-> "terminated:after:" \o TaintSig(t2), m |-> m2]
             ELSE [ok |-> TRUE, why |-> "", sig |-> "", m |-> m2]
 
+\* ---- C21 (two fix8 sessions, the driver is the network) -------------------------------------------------
+\* Events carry w \in {"a", "b"} (which session made the call).  Application ids grow in send order per sender.
+RECURSIVE WalkDeliv(_, _, _, _)
+\* d = delivered list of one Recv; have = ids already delivered at this side; mx = largest first-delivered id
+WalkDeliv(d, i, have, mx) ==
+    IF i > Len(d) THEN [ok |-> TRUE, why |-> "", have |-> have, mx |-> mx]
+    ELSE LET x == d[i] IN
+         IF x.id \in have THEN
+              IF ~x.possdup THEN [ok |-> FALSE, why |-> "redelivery_not_flagged_possdup", have |-> have, mx |-> mx]
+              ELSE WalkDeliv(d, i + 1, have, mx)
+         ELSE IF x.id < mx THEN [ok |-> FALSE, why |-> "first_delivery_out_of_send_order", have |-> have \cup {x.id}, mx |-> mx]
+         ELSE WalkDeliv(d, i + 1, have \cup {x.id}, x.id)
+
+C21Step(m, e) ==
+    IF e.e = "End" THEN
+        LET missA == m.sentBy.a \ m.delivAt.b
+            missB == m.sentBy.b \ m.delivAt.a
+        IN IF e.alive /\ (missA # {} \/ missB # {})
+           THEN [ok |-> FALSE, why |-> "application_message_never_delivered",
+                 sig |-> "not_all_delivered:" \o (IF missA # {} THEN "a_to_b" ELSE "b_to_a") \o ":after:" \o TaintSig(m.taint), m |-> m]
+           ELSE [ok |-> TRUE, why |-> "", sig |-> "", m |-> m]
+    ELSE IF ~Has(e, "post") THEN [ok |-> TRUE, why |-> "", sig |-> "", m |-> m]
+    ELSE LET w == e.w
+             t2 == m.taint \cup LabelsOf(e)
+             newsent == {e.out[k].id : k \in {j \in DOMAIN e.out : IsNew(e.out[j]) /\ IsApp(e.out[j])}}
+             wd == WalkDeliv(e.delivered, 1, m.delivAt[w], m.maxFirst[w])
+             m2 == [m EXCEPT !.taint = t2, !.sentBy[w] = @ \cup newsent, !.delivAt[w] = wd.have, !.maxFirst[w] = wd.mx]
+         IN IF ~wd.ok THEN [ok |-> FALSE, why |-> wd.why, sig |-> wd.why \o ":after:" \o TaintSig(t2), m |-> m2]
+            ELSE IF e.post.shutdown /\ ~e.pre.shutdown /\ e.e \in {"Recv", "Start"}
+            THEN [ok |-> FALSE, why |-> "session_terminated_by_its_peer_session",
+                  sig |-> "terminated:" \o w \o ":after:" \o TaintSig(t2), m |-> m2]
+            ELSE [ok |-> TRUE, why |-> "", sig |-> "", m |-> m2]
+
 \* ---- bookkeeping common to all properties ---------------------------------------------------------
 RECURSIVE AddSent(_, _, _)
 AddSent(sent, out, i) ==
@@ -308,6 +342,7 @@ MonStep(m, e) ==
                     [] Prop(m) = "C18" -> C18Step(m, e)
                     [] Prop(m) = "C19" -> C19Step(m, e)
                     [] Prop(m) = "C20" -> C20Step(m, e)
+                    [] Prop(m) = "C21" -> C21Step(m, e)
                     [] Prop(m) = "C22" -> C22Step(m, e)
                     [] Prop(m) = "C23" -> C23Step(m, e)
                     [] OTHER -> [ok |-> TRUE, why |-> "", sig |-> "", m |-> m]
